@@ -81,6 +81,37 @@ func propSpecs() map[string]*PropSpec {
 			Assume: append([]string{"bounded draws are summarised by the kernel contract verified by C01"}, commonAssume...),
 		},
 		{
+			ID: "C07", Sub: "spg", Level: "model_checking",
+			Harnesses: []HSpec{
+				{Name: "H07", Quick: P{"a": 2, "k": 2, "m": 2, "L": 3}, Thorough: P{"a": 2, "k": 3, "m": 2, "L": 3}, Reach: []string{"computed", "overlapping-required-sets", "impossible"}},
+				{Name: "H07", Label: "long", Quick: P{"a": 2, "k": 2, "m": 2, "big": 1}, Thorough: P{"a": 2, "k": 3, "m": 2, "big": 1}, Reach: []string{"computed", "overlapping-required-sets"}},
+				{Name: "H07", Label: "class-flags", Quick: P{"a": 0, "k": 2, "m": 1, "L": 2, "flags": 4}, Thorough: P{"a": 1, "k": 2, "m": 1, "L": 3, "flags": 4}, Reach: []string{"computed", "overlapping-required-sets", "premise-excluded"}},
+				{Name: "H07", Label: "four-sets", ThoroughOnly: true, Thorough: P{"a": 1, "k": 4, "m": 1, "L": 3}, Reach: []string{"computed", "overlapping-required-sets"}},
+			},
+			Bounds: map[string]string{
+				"H07":     "allowed string of 0..a characters and 0..k required sets of 1..m characters each, every character a symbolic printable-ASCII byte, so every overlap pattern (set partition) of the characters arises as a solver-feasible path; Length 1..L, and 1000 and 5000 in the `long` run; class flags none / Require Digits / Allow Digits Exclude Ambiguous / Require Symbols Allow Digits in the `class-flags` run; quick a=2,k=2,m=2,L=3; thorough a=2,k=3,m=2 and k=4 singletons",
+				"outside": "more than 4 required sets (the property's upper end of 8 is outside the executed bound), more than 8 distinct custom characters, non-ASCII custom characters (set operations only compare characters for equality); log2 is the native math.Log2 (compared numerically to 8 float32 ulps against an independent route, not proved)",
+			},
+			Assume: commonAssume,
+		},
+		{
+			ID: "C13", Sub: "spg", Level: "model_checking",
+			Harnesses: []HSpec{
+				{Name: "H13a", Reach: []string{"refused", "nil-list"}},
+				{Name: "H13n", Reach: []string{"refused"}},
+				{Name: "H13b", Quick: P{"a": 1, "k": 2, "m": 2, "L": 2, "flags": 1}, Thorough: P{"a": 2, "k": 2, "m": 2, "L": 3, "flags": 1}, Reach: []string{"computed", "comfortably-acceptable", "clearly-unacceptable"}},
+				{Name: "H13b", Label: "class-flags", Quick: P{"a": 0, "k": 2, "m": 1, "L": 2, "flags": 3}, Thorough: P{"a": 1, "k": 2, "m": 1, "L": 3, "flags": 4}, Reach: []string{"computed", "comfortably-acceptable", "clearly-unacceptable"}},
+				{Name: "H02", Label: "retry-budget", Quick: P{"allowmask": 4, "requiremask": 4, "excludemask": 16, "strings": 2, "reqsets": 6, "L": 2, "T": 3}, Thorough: P{"allowmask": 12, "requiremask": 12, "excludemask": 16, "strings": 3, "reqsets": 8, "L": 2, "T": 4}, Reach: []string{"exhausted", "accepted-after-retry"}},
+			},
+			Bounds: map[string]string{
+				"H13a":    "Length symbolic over all 64-bit values < 1 (character and wordlist recipes); empty alphabet with Length 1..3; zero-valued CharRecipe and WLRecipe; WLRecipe without a list",
+				"H13b":    "the overlap patterns of C07's family (symbolic characters, including required sets emptied by exclusion), Length 1..L, MaxTrials in {1,3,200}: SuccessProbability against the exact fraction (relative 1e-3), the pre-flight decision outside the band [MaxFailRate/4, 4*MaxFailRate], Generate's refusal for MaxTrials <= 3",
+				"H02":     "retry budget: MaxTrials 1..T, all draws symbolic, including the stream on which every attempt fails",
+				"outside": "the band within a factor 4 of MaxFailRate (float rounding territory); MaxTrials above 4 for the executed retry loop; a symbolic positive Length cannot pass through the float32 entropy (concrete lengths there)",
+			},
+			Assume: commonAssume,
+		},
+		{
 			ID: "C11", Sub: "spg", Level: "model_checking",
 			Harnesses: []HSpec{
 				{Name: "H11a", Quick: P{"t": 3, "b": 3}, Thorough: P{"t": 3, "b": 3, "anytype": 1}, Reach: []string{"indexed", "roundtrip", "non-ascii"}},
